@@ -300,6 +300,10 @@ class NamespaceClass(Namespace[symtable.Class]):
         if name in self.globals_used_in_comp:
             return Name(id=name, ctx=Load())
 
+        if name == "__class__":
+            # read by a lambda written in the class body: the loader's cell
+            return Name(id=name, ctx=Load())
+
         symbol = self.symt.lookup(name)
         if name in self.outer_nonlocal_map:
             outer = self.outer_nonlocal_map[name]
